@@ -76,6 +76,32 @@ def gen_query(rng, fam):
     return {"q": k, "a": h, "twice": rng.random() < 0.5}
 
 
+def gen_shared_query(rng, objs):
+    """queries over a population of objects that lives as long as the history (per-instance caches included)"""
+    refs = [{"ref": i} for i in range(len(objs))]
+    k = rng.choice(["h", "h", "rwc", "order", "app", "eq", "eq", "hasheq", "setlen", "dictget", "homog", "lowest", "lowest", "items"])
+    a = rng.choice(refs)
+    if k in ("h", "rwc", "app"):
+        n = rng.randint(2, 3)
+        dice = [a] * n if rng.random() < 0.6 else [a] * (n - 1) + [rng.choice(refs)]
+        q = {"q": k, "dice": dice}
+        if k == "app":
+            q["o"] = objs[a["ref"]][0][0]
+        else:
+            q["which"] = rng.choice([[{"i": 0}], [{"i": -1}], [{"s": [None, n - 1, None]}], [{"s": [1, None, None]}], [{"i": 1}]])
+        return q
+    if k == "order":
+        n = rng.randint(1, 3)
+        return {"q": k, "h": a, "n": n, "pos": rng.randint(-n, n - 1)}
+    if k in ("eq", "hasheq"):
+        return {"q": k, "a": a, "b": rng.choice(refs)}
+    if k in ("setlen", "homog"):
+        return {"q": k, "objs": [rng.choice(refs) for _ in range(rng.randint(2, 4))]}
+    if k == "dictget":
+        return {"q": k, "objs": [rng.choice(refs) for _ in range(rng.randint(1, 3))], "probe": [rng.choice(refs) for _ in range(2)]}
+    return {"q": k, "a": a}
+
+
 def gen_cases(rng, tier):
     n = 40 if tier == "quick" else 400
     cases = []
@@ -83,31 +109,43 @@ def gen_cases(rng, tier):
         fam = family(rng)
         qs = [gen_query(rng, fam) for _ in range(rng.randint(2, 6))]
         cases.append({"kind": "history", "queries": qs})
+    for _ in range(n):
+        objs = family(rng)
+        if rng.random() < 0.3:
+            objs = objs + family(rng)[:2]
+        rng.shuffle(objs)
+        qs = [gen_shared_query(rng, objs) for _ in range(rng.randint(2, 7))]
+        cases.append({"kind": "shared", "objects": objs, "queries": qs})
     return cases
 
 
-def _run(queries):
+def _run(queries, objects=None):
+    if objects is not None:
+        queries = {"objects": objects, "queries": queries}
     p = subprocess.run([common.PY, str(common.VERIF / "harness" / "c13_runner.py")], input=json.dumps(queries),
                        capture_output=True, text=True, timeout=600, env=common.impl_env())
     if p.returncode != 0:
-        return [{"exc": "RunnerFailed", "msg": p.stderr[-300:]}] * len(queries)
+        return [{"exc": "RunnerFailed", "msg": p.stderr[-300:]}] * len(queries["queries"] if isinstance(queries, dict) else queries)
     return json.loads(p.stdout)
 
 
 def run_impl_custom(cases):
     """warm: one interpreter per history; cold: one interpreter per distinct query"""
     distinct = {}
+
+    def key(c, q):
+        return json.dumps([c.get("objects"), q], sort_keys=True)
     for c in cases:
         for q in c["queries"]:
-            distinct.setdefault(json.dumps(q, sort_keys=True), q)
+            distinct.setdefault(key(c, q), (q, c.get("objects")))
     with cf.ThreadPoolExecutor(max_workers=14) as ex:
-        warm = list(ex.map(lambda c: _run(c["queries"]), cases))
+        warm = list(ex.map(lambda c: _run(c["queries"], c.get("objects")), cases))
         keys = list(distinct)
-        cold_list = list(ex.map(lambda k: _run([distinct[k]])[0], keys))
+        cold_list = list(ex.map(lambda k: _run([distinct[k][0]], distinct[k][1])[0], keys))
     cold = dict(zip(keys, cold_list))
     out = []
     for c, w in zip(cases, warm):
-        out.append({"warm": w, "cold": [cold[json.dumps(q, sort_keys=True)] for q in c["queries"]]})
+        out.append({"warm": w, "cold": [cold[key(c, q)] for q in c["queries"]]})
     global _STARTS
     _STARTS = len(cases) + len(keys)
     return out, None
@@ -133,7 +171,7 @@ def coq_check(case, r):
     parts = []
     for q, a in zip(case["queries"], r["warm"]):
         if q["q"] == "h" and "ok" in a:
-            dice = [_untyped_hist(d) for d in q["dice"]]
+            dice = [_untyped_hist(case["objects"][d["ref"]] if isinstance(d, dict) else d) for d in q["dice"]]
             exp = f"(Ok {chist(_untyped_hist(a['ok']))})"
             parts.append(f"chk_p_h {pools.cpool(dice)} {pools.csel(q['which'])} {exp}")
     return " && ".join(parts) if parts else "true"
@@ -147,8 +185,59 @@ def oracle(case):
     return {"spec": "every warm answer equals the cold answer of the same query"}
 
 
+def _obj(case, x):
+    return case["objects"][x["ref"]] if isinstance(x, dict) else x
+
+
+def _canon(items):
+    """what == and hash look at: positive counts in lowest terms, outcomes by value"""
+    from math import gcd
+    pos = [(Fraction(o[1], o[2]), c) for o, c in items if c > 0]
+    g = 0
+    for _, c in pos:
+        g = gcd(g, c)
+    return tuple(sorted((v, c // (g or 1)) for v, c in pos))
+
+
+def _expected(case, q):
+    """answers that follow from the definition of histogram equality alone (None: no such expectation)"""
+    from math import gcd
+    k = q["q"]
+    if k == "eq":
+        e = _canon(_obj(case, q["a"])) == _canon(_obj(case, q["b"]))
+        return [e, not e, True] if e else None
+    if k == "hasheq":
+        return True if _canon(_obj(case, q["a"])) == _canon(_obj(case, q["b"])) else None
+    if k == "setlen":
+        return len({_canon(_obj(case, x)) for x in q["objs"]})
+    if k == "homog":
+        return len({_canon(_obj(case, x)) for x in q["objs"]}) <= 1
+    if k == "dictget":
+        cs = [_canon(_obj(case, x)) for x in q["objs"]]
+        return [max([i for i, c in enumerate(cs) if c == _canon(_obj(case, x))], default=-1) for x in q["probe"]]
+    if k == "items":
+        return [[list(o), c] for o, c in _obj(case, q["a"])]
+    if k == "lowest":
+        items = _obj(case, q["a"])
+        g = 0
+        for _, c in items:
+            g = gcd(g, c)
+        return [[list(o), c // (g or 1)] for o, c in items if c > 0]     # same outcomes, of the same types
+    return None
+
+
 def agree(case, r, o):
-    return r["warm"] == r["cold"] and all("exc" not in a for a in r["cold"])
+    if not (r["warm"] == r["cold"] and all("exc" not in a for a in r["cold"])):
+        return False
+    for q, a in zip(case["queries"], r["cold"]):
+        e = _expected(case, q)
+        if e is not None and q["q"] == "eq" and a["ok"][:2] != e[:2]:
+            return False
+        if e is not None and a["ok"] != e and q["q"] != "eq":
+            return False
+        if e is not None and q["q"] == "eq" and a["ok"] != e:
+            return False
+    return True
 
 
 def nontrivial(case, r):
